@@ -93,7 +93,7 @@ type c05Req struct {
 	Role   string // value of the third constrained header (kind header2)
 }
 
-var c05Kinds = []string{"static", "optional-short", "optional-long", "placeholder", "regex", "matchall-capture", "final-matchall", "header", "any", "panic", "notfound", "render-json", "render-xml", "render-text", "query-cookie", "static-file", "static-file-2", "grouped", "notfound-after-capture", "header2", "static-file-big", "silent", "redirect"}
+var c05Kinds = []string{"static", "optional-short", "optional-long", "placeholder", "regex", "matchall-capture", "final-matchall", "header", "any", "panic", "notfound", "render-json", "render-xml", "render-text", "query-cookie", "static-file", "static-file-2", "grouped", "notfound-after-capture", "header2", "static-file-big", "silent", "redirect", "unknown-method", "static-dir-index", "head-autohead"}
 
 // c05Dir holds the file served by the Static middleware of the shared instance.
 var c05Dir string
@@ -103,6 +103,7 @@ func c05Fixture(dir string) {
 	_ = os.WriteFile(filepath.Join(dir, "hello.txt"), []byte("static file content, the same for everybody"), 0o644)
 	_ = os.MkdirAll(filepath.Join(dir, "sub"), 0o755)
 	_ = os.WriteFile(filepath.Join(dir, "sub", "hello.txt"), []byte("another file that merely has the same name"), 0o644)
+	_ = os.WriteFile(filepath.Join(dir, "sub", "index.html"), []byte("<p>the index of sub</p>"), 0o644)
 	big := make([]byte, 100000)
 	for i := range big {
 		big[i] = byte('a' + (i*7+i/251)%26)
@@ -167,6 +168,14 @@ func c05MakeReq(kind, tok string, rng *rand.Rand) c05Req {
 		r.Role = []string{"admin", "admin", "guest"}[rng.Intn(3)]
 	case "grouped":
 		r.Path = "/g1/" + pt + "/g2/leaf"
+	case "unknown-method":
+		r.Path = "/u/" + pt
+		r.Method = []string{"BREW", "PURGE", "get", "PROPFIND", "M-SEARCH", " GET"}[rng.Intn(6)] // a token no route was ever registered for
+	case "static-dir-index":
+		r.Path = "/assets/sub/" // served through the directory's index file
+	case "head-autohead":
+		r.Path = "/ah/" + pt
+		r.Method = "HEAD"
 	case "silent":
 		r.Path = "/s/" + pt // the chain completes without writing anything
 	case "redirect":
@@ -324,6 +333,9 @@ func buildC05(s *c05Sched) *flamego.Flame {
 		}, func(c flamego.Context) { s.perturb(c.Param("tok"), 1) })
 	}, func(c flamego.Context) { c.Next() })
 	f.Get("/s/{tok}", func(c flamego.Context, v c05ReqVal) { s.perturb(v.Tok, 1) })
+	f.AutoHead(true)
+	f.Get("/ah/{tok}", echo("head-autohead")...)
+	f.AutoHead(false)
 	f.Get("/rd/{tok}", func(c flamego.Context, v c05ReqVal) {
 		s.perturb(v.Tok, 1)
 		c.Redirect("/u/"+c.Param("tok")+"?inj="+v.Tok, http.StatusSeeOther)
@@ -672,7 +684,7 @@ func judgeHammer(w *core.W, c *hammerCase) bool {
 }
 
 func runC05(r *core.Run) {
-	r.Rule("per round one COLD instance (lazy caches unfilled) with routes of every kind (static shortcut, optional static short/long, placeholder, multi-bind regex, match-all with capture, final match-all, header-constrained, Any, named route used for URL building, JSON rendering, a panicking route behind Recovery, a route whose chain writes nothing, a redirecting route, custom not-found chain) and Logger+Recovery+Renderer middleware; 84-168 goroutines behind a barrier, the first wave hits every route kind while cold, then few hot routes; every request carries a unique token in a header, the query, a cookie and the body, half of them also in the path - the other half use one of 400 shared path keys, so that paths repeat; an early middleware maps a request-scoped value; handlers reached through Next (fast path) and reflectively echo parameters, `route`, the injected value, a built URL and the body, with seeded yields / sleeps / pairwise rendezvous between reading and writing. Oracles: (1) Go race detector, report blocks with a framework frame counted from the log; (2) byte-for-byte equality (status, body, Content-Type, ETag, response tags) with an identically built instance that served the same requests serially, which in turn equals - for the cold wave and every 32nd request - a fresh instance that serves nothing else; (3) no foreign token in any response; (4) every line the request logger writes carries the request-scoped logger (request id) of the request it is about. Then one hammer instance: 32 goroutines x 60 000 / 300 000 requests over 700 keys and five route kinds with minimal self-describing handlers (each response names the route and parameters of the request it answers). non-trivial = distinct concurrent rounds")
+	r.Rule("per round one COLD instance (lazy caches unfilled) with routes of every kind (static shortcut, optional static short/long, placeholder, multi-bind regex, match-all with capture, final match-all, header-constrained, Any, named route used for URL building, JSON rendering, a panicking route behind Recovery, a route whose chain writes nothing, a redirecting route, a GET route with its automatic HEAD twin, a directory served through its index file, requests with method tokens no route was registered for, custom not-found chain) and Logger+Recovery+Renderer middleware; 84-168 goroutines behind a barrier, the first wave hits every route kind while cold, then few hot routes; every request carries a unique token in a header, the query, a cookie and the body, half of them also in the path - the other half use one of 400 shared path keys, so that paths repeat; an early middleware maps a request-scoped value; handlers reached through Next (fast path) and reflectively echo parameters, `route`, the injected value, a built URL and the body, with seeded yields / sleeps / pairwise rendezvous between reading and writing. Oracles: (1) Go race detector, report blocks with a framework frame counted from the log; (2) byte-for-byte equality (status, body, Content-Type, ETag, response tags) with an identically built instance that served the same requests serially, which in turn equals - for the cold wave and every 32nd request - a fresh instance that serves nothing else; (3) no foreign token in any response; (4) every line the request logger writes carries the request-scoped logger (request id) of the request it is about. Then one hammer instance: 32 goroutines x 60 000 / 300 000 requests over 700 keys and five route kinds with minimal self-describing handlers (each response names the route and parameters of the request it answers). non-trivial = distinct concurrent rounds")
 	r.Assume("happens-before race detection is timing independent for accesses that occur; the shadow history is bounded (4 accesses per word)")
 	r.Race = raceEnabled
 	if !raceEnabled {
@@ -709,6 +721,7 @@ func runC05(r *core.Run) {
 		runtime.GOMAXPROCS([]int{runtime.NumCPU(), 4, 2, runtime.NumCPU(), 8}[i%5])
 		c := &c05Round{Round: i, Goroutines: gor, PerG: per}
 		w.Begin("concurrent-round", c)
+		r.Pending("concurrent-round", c)
 		if !runC05Round(w, c, st, 0) {
 			break
 		}
@@ -724,8 +737,10 @@ func runC05(r *core.Run) {
 		hc := &hammerCase{Goroutines: 32, PerG: perG, Keys: 700, Seed: uint64(r.Seed)*7919 + 1}
 		runtime.GOMAXPROCS(runtime.NumCPU())
 		w.Begin("hammer", hc)
+		r.Pending("hammer", hc)
 		judgeHammer(w, hc)
 	}
+	r.ClearPending()
 	w.Done()
 	w.Merge()
 	if r.Violations() == 0 {
